@@ -6,6 +6,7 @@ import Driver.Sema
 import Driver.Lint
 import Driver.Render
 import Driver.Proc
+import AL.Model.SrcPos
 import Driver.Calls
 
 def dispatch (line : String) : String :=
@@ -25,6 +26,11 @@ def dispatch (line : String) : String :=
   | "exproffsets" :: args => Driver.RenderD.handleExprOffsets args
   | "proctrace" :: args => Driver.ProcD.handle args
   | "shell" :: args => Driver.ProcD.handleShell args
+  | "toolresult" :: args => Driver.ProcD.handleToolResult args
+  | ["posbefore", l1, c1, l2, c2] =>
+    match l1.toNat?, c1.toNat?, l2.toNat?, c2.toNat? with
+    | some a, some b, some c, some d => if AL.SrcPos.isBefore ⟨a, b⟩ ⟨c, d⟩ then "1" else "0"
+    | _, _, _, _ => "bad-op"
   | "calls" :: args => Driver.CallsD.handle args
   | _ => "bad-op"
 
